@@ -28,6 +28,8 @@ type Item struct {
 type Inner struct {
 	X int64
 	Y string
+	B []byte  // never nil (empty or not): diff.Diff treats nil and empty alike, JSON does not
+	P *[]byte // nil, empty or not
 }
 
 // Fields of the query root. Every field has its own reactive resource, version and failure budget.
@@ -509,6 +511,7 @@ var SubQueries = []string{
 	`{ f s items { id } }`,
 	`query P($n: int64!) { plus(n: $n) s }`,
 	`query I($id: int64!) { item(id: $id) { id name n } flag }`,
+	`{ obj { b p x } }`,
 	// rejected by Parse / PrepareQuery
 	`{ nope }`,
 	`{ a `,
@@ -516,7 +519,7 @@ var SubQueries = []string{
 	`{ items }`,
 }
 
-const FirstBadSubQuery = 14
+const FirstBadSubQuery = 15
 
 // QueryVar names the variable of a query text of SubQueries ("" if it has none).
 func QueryVar(q int) string {
